@@ -119,7 +119,9 @@ int xcm_receive(struct xcm_socket *__restrict conn_socket, void *__restrict buf,
     }
     size_t n = nondet_size_t();
     __CPROVER_assume(n <= capacity && n <= 0x7fffffffUL);
+#ifndef XV_EXP_NOHAVOC
     if (n > 0) __CPROVER_havoc_slice(buf, n);
+#endif
     if (xv_j >= 0 && (size_t)xv_j < n) xv_rcv_c = ((const uint8_t *)buf)[xv_j];
     xv_rcv_ret = (int)n;
     return (int)n;
@@ -280,8 +282,10 @@ void xv_fwd_cb(int reason, const char *msg, void *cb_data)
 {
     xv_fcb_calls++; xv_fcb_reason = reason; xv_fcb_msg = msg; xv_fcb_data = cb_data;
     xv_terminated = 1;
+#ifndef XV_EXP_NOFREE
     if (xv_cb_frees)
         free(cb_data);
+#endif
 }
 /* TRUSTED(caller) xrelay_err_cb handed to xrelay_create() */
 void xv_relay_cb(struct xrelay *relay, int reason, const char *msg, void *cb_data)
